@@ -134,4 +134,53 @@ theorem xlds_pred_string (cls : Cls) (xs : List Val) (lead : Lead) (steps : List
     refine xa_select_api cls xs _ _ vals d fuel hq hpc (sel3_tokenize_sp_key lead steps _ _ hp hne hgood) (fun rl => ?_)
     exact (hsel rl).1 _ (by simp [sel2Toks])
 
+/-- **Chained selection `P[k1 op v1]/items[k2 op v2]/f` below a list root, any spelling of `P`**, string level: `get` / item access
+return the `return_lists = True` selection, `first` the unwrapped `return_lists = False` one -/
+theorem xlds_chained_string (cls : Cls) (xs : List Val) (lead : Lead) (steps : List StepSp)
+    (k1 opx1 op1 vq1 v1 items k2 opx2 op2 vq2 v2 f : Str) (lc : Cls) (rs : List Val) (d : Val)
+    (hp : PlainSteps steps) (hne : steps ≠ []) (hget : stepsGet (.list cls xs) steps = some (.list lc rs))
+    (hk1 : FieldKey k1) (hop1 : OpSpell opx1 op1) (hlit1 : LitSpell vq1 v1)
+    (hv1 : PlainLit v1) (hitems : PlainKey items) (hk2 : FieldKey k2) (hop2 : OpSpell opx2 op2) (hlit2 : LitSpell vq2 v2)
+    (hv2 : PlainLit v2) (hf : PlainKey f) (hrs : ∀ r ∈ rs, isDict r = true)
+    (hg : ∀ c kvs' kv, Val.dict c kvs' ∈ rs → lookup k1 kvs' = some kv → textGuard kv (.str v1) = false)
+    (hin : Sel3InnerOK items k2 (.str v2) rs)
+    (fuel : Nat) (hfuel : fuel ≥ 10 * steps.length + rs.length + (rs.map (sel2InnerLen items)).sum + 30) :
+    let xp := renderSp lead steps ++ bracket (k1 ++ opx1 ++ vq1) ++ slash ++ items ++ bracket (k2 ++ opx2 ++ vq2) ++ slash ++ f
+    let valsT := sel3Chained k1 op1 (.str v1) items k2 f op2 (.str v2) true rs
+    let valsF := sel3Chained k1 op1 (.str v1) items k2 f op2 (.str v2) false rs
+    get fuel (.list cls xs) xp d = (.list cls xs, .ok (if valsT.isEmpty then d else .list .n0 valsT)) ∧
+    getItem fuel (.list cls xs) xp = (.list cls xs, if valsT.isEmpty then .error .IndexError else .ok (.list .n0 valsT)) ∧
+    first fuel (.list cls xs) xp d = (.list cls xs, .ok (firstOf valsF d)) := by
+  intro xp valsT valsF
+  have hs3 := sel3_spells_steps steps _ _ hp hget
+  have hlen := toksOf_length_le steps
+  have htne := toksOf_ne_nil steps hne
+  have hsel := fun rl => xld_chained_spelled (.list cls xs) rl k1 opx1 op1 vq1 v1 items k2 opx2 op2 vq2 v2 f ⟨cls, xs, rfl⟩ hs3
+    htne hk1 hop1 hlit1 hv1 hitems hk2 hop2 hlit2 hv2 hf hrs hg hin fuel (by omega)
+  have hxp : xp = renderSp lead steps ++ sel2Render [.br (k1 ++ opx1 ++ vq1), .key items, .br (k2 ++ opx2 ++ vq2), .key f] := by
+    simp [xp, sel2Render, sel2RenderSeg, slash]
+  have hgood : GoodG [.br (k1 ++ opx1 ++ vq1), .key items, .br (k2 ++ opx2 ++ vq2), .key f] :=
+    ⟨sel2_gBr_cond k1 opx1 op1 vq1 v1 hk1.cond hop1 hlit1 hv1, hitems.gKey,
+      sel2_gBr_cond k2 opx2 op2 vq2 v2 hk2.cond hop2 hlit2 hv2, hf.gKey, trivial⟩
+  have hq : startsWith xp ['?'] = false := by rw [hxp]; exact xlds_noQ cls xs lead steps _ _ hne hget
+  have hpc : hasPathChar xp = true := by
+    rw [hxp]; exact sel3_sp_pathChar lead steps _ '[' (by simp [sel2Render, sel2RenderSeg, bracket]) (Or.inr rfl)
+  have hts : sel2Toks [.key items, .br (k2 ++ opx2 ++ vq2), .key f] = [items ++ bracket (k2 ++ opx2 ++ vq2), f] := by
+    simp [sel2Toks]
+  obtain ⟨steps', s, rfl⟩ : ∃ steps' s, steps = steps' ++ [s] :=
+    ⟨steps.dropLast, steps.getLast hne, (List.dropLast_concat_getLast hne).symm⟩
+  cases s with
+  | key name =>
+    have hname : PlainKey name := (sel3_plainSteps_append hp).2.1
+    have hne' := toksOf_ne_nil steps' (xlds_init_ne_nil cls xs steps' name _ hget)
+    have htok := sel3_tokenize_sp_key_br lead steps' name _ _ hp hgood
+    rw [← hxp, hts] at htok
+    exact xld_select_api2 cls xs xp _ valsT valsF d fuel hq hpc htok
+      ((hsel true).2 (toksOf steps') name (sel3_toksOf_snoc_key steps' name) hname hne')
+      ((hsel false).2 (toksOf steps') name (sel3_toksOf_snoc_key steps' name) hname hne')
+  | idx e sep =>
+    have htok := sel3_tokenize_sp_idx_br lead steps' e sep _ _ hp hgood
+    rw [← hxp, hts] at htok
+    exact xld_select_api2 cls xs xp _ valsT valsF d fuel hq hpc htok (hsel true).1 (hsel false).1
+
 end N0.XPath
